@@ -153,7 +153,11 @@ class FluxInterface_0490(FluxInterface):
 
     @classmethod
     def parallelize(cls, procs, nodes=None, **kwargs):
-        args = ["flux", "run", "-n", str(procs)]
+        args = ["flux", "run"]
+
+        # a step may declare nodes only
+        if procs:
+            args += ["-n", str(procs)]
 
         # if we've specified nodes, add that to wreckrun
         ntasks = nodes if nodes else 1
